@@ -62,3 +62,7 @@ Proof. unfold on_grid. vm_compute. repeat split; auto; discriminate. Qed.
 Theorem C16_pong_with_tick_counts : forall s d, s_running s = true ->
   let '(s', out) := step s (AdvPong d) in s_running s' = true /\ nth_error out 2 = Some 0.
 Proof. exact pong_with_tick_counts. Qed.
+
+(* a Ping sent by the peer on its own never counts as an answer to ours *)
+Theorem C16_peer_ping_is_no_answer : forall s, s_last_pong (fst (step s PingIn)) = s_last_pong s.
+Proof. exact peer_ping_is_no_answer. Qed.
